@@ -31,8 +31,18 @@ def rand_tree(rng):
         fn = [rng.choice(["x", "y", "z", "w"]) for _ in range(nf)]
         if rng.random() < 0.8:
             fn = rng.sample(["x", "y", "z", "w"], nf)
-        structs.append({"name": n, "fields": [{"name": f, "id": i, "type": {"k": "u", "w": rng.choice([1, 8, 16, 24, 32, 40, 64])}}
-                                              for i, f in enumerate(fn)]})
+        def ftype():
+            r = rng.random()
+            cands = [x["name"] for x in structs if x["name"] != n and x["fields"]]
+            if r < 0.6 or not cands:
+                return {"k": "u", "w": rng.choice([1, 8, 16, 24, 32, 40, 64])}
+            prev = rng.choice(cands)
+            if r < 0.75:
+                return {"k": "struct", "name": prev}
+            if r < 0.9:
+                return {"k": "arr", "t": {"k": "struct", "name": prev}, "n": rng.randint(1, 3)}
+            return {"k": "arr", "t": {"k": "u", "w": rng.choice([3, 8, 16])}, "n": rng.randint(1, 5)}
+        structs.append({"name": n, "fields": [{"name": f, "id": i, "type": ftype()} for i, f in enumerate(fn)]})
     enums = []
     for en in rng.sample(["E", "F", "A"], rng.randint(0, 2)):
         k = rng.randint(1, 3)
@@ -76,7 +86,7 @@ def run_c09(tier, seed):
         variants = [("objects", build.mk_fcp(tree))]
         # all permutations of the struct and impl lists (explicit and default impls together)
         nst, nim = len(tree["structs"]), len(tree["structs"]) + len(tree["impls"])
-        for ps in perms(nst, rng, 2)[-1:]:
+        for ps in (perms(nst, rng, 2)[-1:] if (tier != "quick" or ti % 3 == 0) else []):
             for pi in perms(nim, rng, 3 if tier != "quick" else 2)[1:]:
                 if ps == tuple(range(nst)) and pi == tuple(range(nim)):
                     continue
